@@ -27,6 +27,14 @@ class Hooks(object):
     pass
 
 
+class Unprintable(KeyError):
+    """An exception that cannot be turned into text (its __str__ fails): raised by a task like any other."""
+    def __str__(self):
+        raise TypeError("this exception has no text form")
+
+    __repr__ = __str__
+
+
 class PoolRun(object):
     """One execution of the real pool: clients (thr 101, 102), workers (thr 1..NW), observer (thr 200)."""
 
@@ -44,7 +52,7 @@ class PoolRun(object):
         self.holding = {}        # worker idx -> task dequeued and not yet finished
         self.futures = {}
         self.objs = {t: object() for t in range(1, ntasks + 1)}
-        self.excs = {t: KeyError("task-%d" % t) for t in range(1, ntasks + 1)}
+        self.excs = {t: (Unprintable if t % 2 else KeyError)("task-%d" % t) for t in range(1, ntasks + 1)}
         self.phase = "stopped"
         self.enq_order = []
         self.start_order = []
